@@ -22,7 +22,7 @@ CHECKS = {
  "C01": dict(
    level="exploration", design="§3 C01",
    technique="deterministic simulation: full sdns chain + real resolver on fake clock over simulated network; signing authoritative world with path-wide response tampering; ground-truth resolver over the zone model as oracle",
-   text="Seeded search over generated zone hierarchies (signed/unsigned/opt-out, algorithms 8/10/13/14/15, NSEC/NSEC3, wildcards, CNAME/DNAME, shared servers, expired signature windows), sequential client histories with DO/AD/CD mixes that re-ask names (cache routes), and 21 kinds of path-wide tampering of chosen resolution steps, or no trust anchor. Every CD=0 reply for a securely delegated name must be SERVFAIL or equal the model's answer; AD only where entitled and secure; tamperings of the question's own response must surface as SERVFAIL. Sampling, not proof.",
+   text="Seeded search over generated zone hierarchies (signed/unsigned/opt-out, algorithms 8/10/13/14/15, NSEC/NSEC3, wildcards, CNAME/DNAME, shared servers, expired signature windows), sequential client histories with DO/AD/CD mixes that re-ask names (cache routes), and 26 kinds of path-wide tampering of chosen resolution steps, or no trust anchor. Every CD=0 reply for a securely delegated name must be SERVFAIL or equal the model's answer; AD only where entitled and secure; tamperings of the question's own response must surface as SERVFAIL. Sampling, not proof.",
    note="Trusts authsim (RFC 4034/4035/5155 answers, checked by the fault-free run: zero-tamper scenarios must reproduce ground truth) and miekg/dns signing. Names in NSEC3 opt-out spans are treated as unauthenticated. Three open findings and several fixed ones are listed in known_findings.json."),
  "C02": dict(
    level="exploration", design="§3 C02",
@@ -32,12 +32,12 @@ CHECKS = {
  "C08": dict(
    level="exploration", design="§3 C08",
    technique="deterministic simulation: full chain + real resolver on fake clock (hours to days); scripted withdrawal/re-pointing at the parent while the old child stays alive; lease model over delivered referrals as oracle",
-   text="Seeded search over delegation TTL combinations (1 s to 3 d, crossing the 12 h ceiling), signed/unsigned, withdrawal or re-pointing time, old-child behaviours (long TTLs, own NS set and glue padded into every answer), prefetch-hot question schedules and referral-path latency. Every referral delivered to sdns grants a lease; for questions arriving after the last lease to the old servers ended no old-child record may be served, no packet may reach the old servers, and the reply must equal the parent's current data.",
+   text="Seeded search over delegation TTL combinations (1 s to 3 d, crossing the 12 h ceiling), signed/unsigned, withdrawal or re-pointing time, old-child behaviours (long TTLs, own NS set and glue padded into every answer), prefetch-hot question schedules, referral-path latency, and optionally a second, glueless and unresolvable name server for the child under a 3 s query timeout (requests aborted while the delegation is only provisionally recorded). Every referral delivered to sdns grants a lease; for questions arriving after the last lease to the old servers ended no old-child record may be served, no packet may reach the old servers, and the reply must equal the parent's current data.",
    note="Trusts the generation tags in rdata and the lease model (ancestor bound taken generously). Questions arriving within 50 ms of the lease end are not judged."),
  "C07": dict(
    level="exploration", design="§3 C07",
    technique="deterministic simulation: full chain + real resolver over simulated network with an adversarial authoritative server and spoofed datagrams; ground truth + provenance marks + dial log as oracle",
-   text="Seeded search over unsigned hierarchies in which one zone's legitimately authoritative servers apply subsets of 11 adversarial behaviours (out-of-zone records in every section, CNAME continued out of zone, sideways/upward/self/mixed referrals, loopback or out-of-zone glue) while wrong-ID / wrong-question datagrams are injected ahead of genuine replies; histories alternate trigger questions under that zone with questions for victim names. Victim replies must equal ground truth, attacker-marked data must never be attached to a name outside the zone, no loopback/local dial, no victim question to the attacker's address.",
+   text="Seeded search over unsigned hierarchies in which one zone's legitimately authoritative servers apply subsets of 11 adversarial behaviours (out-of-zone records in every section, CNAME continued out of zone, sideways/upward/self/mixed referrals, loopback or out-of-zone glue) with owner names in mixed letter case, optionally timed against the expiry of the zone's own delegation lease, while wrong-ID / wrong-question datagrams are injected ahead of genuine replies; histories alternate trigger questions under that zone with questions for victim names. Victim replies must equal ground truth, attacker-marked data must never be attached to a name outside the zone, no loopback/local dial, no victim question to the attacker's address, and no query at all to the attacker's server unless an acceptable referral names it.",
    note="DNSSEC is off so only bailiwick rules protect the victim. Names inside the adversary's zone are not judged. Adversary and ancestors never share a server (it would then speak with the ancestor's authority)."),
  "C12": dict(
    level="exploration", design="§3 C12",
@@ -48,7 +48,7 @@ CHECKS = {
    level="exploration", design="§3 C13",
    technique="deterministic simulation: full chain + real resolver on fake clock with scripted server outages and request-local failure causes; suppression/back-off envelope model as oracle",
    text="Seeded search over outage scripts (all servers of a zone silent / SERVFAIL / REFUSED / slower than the client's deadline), timed question histories with immediate repeats across names, types and CD values, client-side deadlines and tiny enforce-mode budgets (request-local causes), random valid min/max failure TTLs, tiny failure-cache sizes and rfc9520 on/off. Every SERVFAIL+EDE 13 served without upstream traffic must be justified by a genuine failure of that question or of a zone at or above the name inside a window that starts at the minimum, at most doubles per consecutive failure and never exceeds the maximum; request-local failures open no window; rfc9520 off means no suppression.",
-   note="Which zone a failure is blamed on depends on cached delegations, so every failing zone on the path is credited (generous). The single-probe-after-expiry clause and ECS audiences are not asserted here."),
+   note="Which zone a failure is blamed on depends on cached delegations, so every failing zone on the path is credited (generous). The single-probe-after-expiry clause is not asserted. ECS audiences are exercised with forwarding at the default ceiling and a name that fails by its own data (an alias loop in a healthy zone), so that a question failure is not also a zone failure."),
  "C19": dict(
    level="exploration", design="§3 C19",
    technique="deterministic simulation: full chain + real resolver over a geo-style authoritative zone that records every received OPT and tags answers with audience/scope/serial; policy model as oracle",
@@ -87,7 +87,7 @@ CHECKS = {
    level="exploration", design="§3 C05",
    technique="deterministic simulation, twin runs: the same seeded scenario (world, configuration, query packets at the same fake instants) executed once through the owned UDP transport (wire path, inline + replay) and once through Server.ServeMsg (decoded path); per-operation comparison of the decoded replies",
    text="Seeded search over configurations (NSID, cookie secret, blocklist, client rate limit, prefetch, RFC 8198) and packet sequences over a signed hierarchy (answers, aliases, wildcards, NXDOMAIN and names below it, NODATA, empty zones, blocked names, unreachable zones, CHAOS; header bits; EDNS version/size/DO; cookies of 8/24/2 bytes, NSID, keepalive, padding, client subnet, unknown options), with repeats so that later packets are served from what earlier ones cached. Reply i of the wire run must decode to the same message as reply i of the decoded run, including 'no reply'. Sampling, not proof.",
-   note="Letter case of names inside RDATA is normalised like owner case (the wire path compresses them against the client's mixed-case question; a consequence of name compression). Zones are signed with Ed25519 so that both runs carry identical signatures. Packets rejected on the header alone and hosts-file state are not generated. The wire run uses a worker pool large enough never to queue."),
+   note="Letter case of names inside RDATA is normalised like owner case (the wire path compresses them against the client's mixed-case question; a consequence of name compression). Zones are signed with Ed25519 so that both runs carry identical signatures. Packets rejected on the header alone and hosts-file state are not generated. The wire run uses a worker pool large enough never to queue. Two open findings (prefetch not ticked by the wire alias composer; truncation decided differently for mixed-case questions near the size limit) are listed in known_findings.json and recognised narrowly."),
 
  "C06": dict(
    level="exploration", design="§3 C06",
@@ -98,14 +98,14 @@ CHECKS = {
  "C04": dict(
    level="exploration", design="§3 C04",
    technique="deterministic simulation: authoritative servers stamp the serving second into the data (host addresses, SOA serials) and sign on the spot with a fixed signature lifetime; whole chain and resolver over a simulated network on a fake clock spanning seconds to days",
-   text="Seeded search over record/alias/NS/SOA TTLs around the 5 s floor and the 24 h cap, SOA minimum, signature lifetime, prefetch, RFC 8198, upstream latency, and 10-60 queries at gaps from 0.2 s to 30 h over a signed and an unsigned zone (hosts, in-zone and cross-zone aliases, NXDOMAIN and names below, NODATA). Every reply says how old its data is: a reply older than the smallest applicable lifetime, a TTL above the time remaining, a TTL that grows between hits of one entry, or older data after newer for one key is a violation. Sampling, not proof.",
-   note="Ages are judged with 2 s of slack plus the configured upstream latency. The delegation lease is only bounded from above (max(5 s, smallest NS TTL on the chain)); its exact value is C08's. Monotonicity rules are applied to direct questions only. DNS64 composition is C20's. One open finding (first reply relays the authority's TTL unclamped) is listed in known_findings.json."),
+   text="Seeded search over record/alias/NS/SOA TTLs around the 5 s floor and the 24 h cap, SOA minimum, signature lifetime, prefetch, RFC 8198, upstream latency, and 10-60 queries at gaps from 0.2 s to 30 h over a signed and an unsigned zone (hosts, in-zone and cross-zone aliases, NXDOMAIN and names below, NODATA), entering at Server.ServeMsg or, in a third of the scenarios, as datagrams through the simulated UDP engine so that hits are served by the wire cache ladder and its alias composer. Every reply says how old its data is: a reply older than the smallest applicable lifetime, a TTL above the time remaining, a TTL that grows between hits of one entry, or older data after newer for one key is a violation. Sampling, not proof.",
+   note="Ages are judged with 2 s of slack plus the configured upstream latency. The delegation lease is only bounded from above (max(5 s, smallest NS TTL on the chain)); its exact value is C08's. Monotonicity rules are applied to direct questions only. DNS64 composition is C20's."),
 
  "C03": dict(
    level="exploration", design="§3 C03",
    technique="deterministic simulation: a zone that answers every name with data computed from the question (lower-cased wire name, type, CD bit of the upstream query); confusable question families through both ingress paths (UDP engine wire path, Server.ServeMsg decoded path, canonical and \\DDD-escaped text); cache-key hash optionally narrowed to 3-10 bits so that distinct questions collide; purges",
-   text="Seeded search over question sequences whose members differ in one respect (letter case, a dot inside a label vs a label boundary, concatenated labels, octets 0x00/0x20/0xff/'*'/'\\\\', names below vs beside a denied name, type, CD), interleaved over the two ingress paths with purges, with full or narrowed cache keys. Every reply must carry the data of its own question: another name's, type's or CD partition's data, or a denial that belongs to another name, is a violation. Sampling, not proof.",
-   note="Key collisions are produced by masking the hash result through an import shim (verifxxhash) in internal/cache/key.go and key_wire.go; collision handling itself is the shipped code. Client-subnet scoping is C19's. Subtree cuts are reached through one recipe (a signed zone that gains a name below a denied one)."),
+   text="Seeded search over question sequences whose members differ in one respect (letter case, a dot inside a label vs a label boundary, concatenated labels, octets 0x00/0x20/0xff/'*'/'\\\\', names below vs beside a denied name, type, CD, client subnet), interleaved over the two ingress paths with purges, with full or narrowed cache keys. Every reply must carry the data of its own question: another name's, type's or CD partition's data, or a denial that belongs to another name, is a violation. Sampling, not proof.",
+   note="Key collisions are produced by masking the hash result through an import shim (verifxxhash) in internal/cache/key.go and key_wire.go; collision handling itself is the shipped code. Client-subnet scoping is exercised with forwarding on at the default ceilings and a zone that scopes its answers (same/fixed/wider/zero): a scoped answer may only reach a client whose whole forwarded subnet lies inside the scope; policy variations are C19's. Subtree cuts are reached through one recipe (a signed zone that gains a name below a denied one)."),
 }
 
 NOT_APPLICABLE = {
